@@ -10,6 +10,7 @@ import r_nogrow
 import r_freeze
 import r_lock
 import r_partials
+import r_cmp
 
 TRUST_COMMON = [
     "rustc nightly: MIR (mir-opt-level=0), type and trait resolution as dumped by driver/lrfacts",
@@ -135,6 +136,23 @@ def c20(rep, tier):
     r_lock.run_lock(p, rep)
     r_lock.run_reentrant_refcell(p, rep)
     r_utf8sink.run_unsafe(p, rep)
+    rep.analysed["config:all"] = {"bodies": len(p.fns)}
+
+
+def c11(rep, tier):
+    p = P("all")
+    r_cmp.run_delegation(p, rep)
+    r_cmp.run_mirror(p, rep)
+    r_cmp.run_value_symmetry(p, rep)
+    r_cmp.run_orderins(p, rep, [r_cmp.CORE_FNS["value_eq"], r_cmp.CORE_FNS["value_cmp"]])
+    rep.analysed["config:all"] = {"bodies": len(p.fns)}
+
+
+def c14(rep, tier):
+    p = P("all")
+    r_cmp.run_cmptotal(p, rep)
+    r_cmp.run_eqonly(p, rep)
+    r_cmp.run_orderins(p, rep, [r_cmp.CORE_FNS["value_eq"], r_cmp.CORE_FNS["value_cmp"]])
     rep.analysed["config:all"] = {"bodies": len(p.fns)}
 
 
@@ -277,5 +295,35 @@ PROPS = {
         ),
         "trusted": TRUST_COMMON + ["rustc trait solver", "std Mutex/Arc semantics"],
         "note": "data-race freedom is rustc's own guarantee given Send/Sync facts and no unsafe; lock discipline is checked on MIR",
+    },
+    "C11": {
+        "run": c11,
+        "level": "other",
+        "design_ref": "DESIGN.md §3 R-FWD(cmp), R-MIRROR, R-ORDERINS; §4 C11",
+        "technique": "delegation census of all PartialEq/PartialOrd impls of the model types; discriminant-pair tables of scalar_eq/scalar_cmp extracted from MIR and checked for symmetry and eq/cmp agreement; iterator-consumer typestate for hash-ordered iterators",
+        "explanation": (
+            "Decided from MIR for all values: every PartialEq/PartialOrd impl of Value, ValueCow, ValueViewCmp, ScalarCow (78) overrides only eq/partial_cmp and "
+            "delegates to value_eq/scalar_eq resp. value_cmp/scalar_cmp (so != is the negation and <,<=,>,>= come from one function); for every ordered "
+            "pair of scalar kinds the arms selected in scalar_eq and scalar_cmp are mirror images (same conversions and comparison on both argument orders) "
+            "and, wherever scalar_cmp orders a pair, scalar_eq uses the same numeric/date conversions; value_eq/value_cmp query both operands alike; "
+            "object entry iterators (hash order) feed only order-insensitive consumers or are key-sorted first. "
+            "NOT decided: reflexivity, numeric equality of particular values, NaN, date instants."
+        ),
+        "trusted": TRUST_COMMON,
+        "note": "symmetry/coherence is decided at the level of which operations each kind pair uses, not their numeric results",
+    },
+    "C14": {
+        "run": c14,
+        "level": "other",
+        "design_ref": "DESIGN.md §3 R-CMPTOTAL, R-EQONLY, R-ORDERINS; §4 C14",
+        "technique": "comparator-totality analysis of every sort_by in the library crates (partial_cmp on a non-Ord type defaulted to a constant), stable-sort census, equality-only identity rule for uniq/case",
+        "explanation": (
+            "Decided from MIR: array filters use the stable slice::sort_by; each comparator is followed through its helpers to the partial_cmp calls that "
+            "produce its result and is total only if those are on Ord types or not defaulted; uniq and case/when decide identity through ValueViewCmp == "
+            "only (no rendering- or hash-keyed shortcut); object comparison is independent of hash order. "
+            "NOT decided: permutation/multiset/idempotence laws, map/where/concat contents."
+        ),
+        "trusted": TRUST_COMMON,
+        "note": "the known finding F-SORT (non-total comparator) is reported as KNOWN-FINDING; any other comparator defect still alarms",
     },
 }
